@@ -109,6 +109,8 @@ def layout_core(m, w, o, rich=True):
         acts.append(["expand", "state", [P[0]]])
     if Q:
         acts.append(["op", "state", [Q[0]], "QExpr", None])
+        if rich:
+            acts.append(["kraus", "state", [Q[0]], "dil2", None])
         h = first_handle(m, [Q[0]] + F[:1])
         if h and F:
             acts.append(["ce_combine", h, [F[0], Q[0]]])
@@ -475,7 +477,7 @@ def get(name, tier, seed):
             hs = sorted(m.members)
             nxt = f"h{len(hs) + 1}"
             pool = [e for e in m.envs if m.ref.alive(e + ".f") and m.ref.alive(e + ".p")] + customs(m) + hs
-            if len(hs) < (3 if q else 4):
+            if len(hs) < 4 and (not q or len(hs) < 3 or m.tags.get("chain")):
                 for x in pool:
                     acts.append(["ce_new", nxt, [x]])
                 for x, y in itertools.permutations(pool, 2):
@@ -516,7 +518,10 @@ def get(name, tier, seed):
 
         def probes13(m, w, o):
             return wide(m, w, o) if is_w3(m) else []
-        return {**base, "prop": "C13", "worlds": [("WM", WM), ("WX", WX)] + [(n, w_, 1 if q else 2) for n, w_ in SEEDS_W3[:(1 if q else 2)]]
+        WC = {"envs": ["A", "B"], "custom": {}, "handles": {"h1": ["A", "B"]}, "init": {"A.f": 1, "B.p": "R"},
+              "contraction": True, "D": 3, "tags": {"chain": True},
+              "prefix": [["ce_combine", "h1", ["A.p", "B.p"]]]}
+        return {**base, "prop": "C13", "worlds": [("WM", WM), ("WX", WX), ("WC/chain", WC)] + [(n, w_, 1 if q else 2) for n, w_ in SEEDS_W3[:(1 if q else 2)]]
                 + rich_seeds(0 if q else 2), "core": core13b, "probes": probes13,
                 "depth": 3 if q else 4, "extra_judges": []}
     if name == "C11":
@@ -528,7 +533,7 @@ def get(name, tier, seed):
             F = focks(m)
             for a, b in itertools.permutations(F, 2):
                 h = first_handle(m, [a, b])
-                for eta in (etas if not q else etas[:2] + [seed_angle(seed, 0.2, 1.4)]):
+                for eta in (etas if not q else etas[:1] + etas[2:3] + [seed_angle(seed, 0.2, 1.4)]):
                     acts.append(["op", "ce:" + h, [a, b], "BS", {"eta": eta}])
             for f in F:
                 for phi in (phis if not q else phis[:1] + [seed_angle(seed)]):
@@ -541,9 +546,17 @@ def get(name, tier, seed):
                 acts.append(["kraus", "state", [F[0]], "loss", None])
                 if len(F) > 1:
                     acts.append(["ce_reorder", h, [F[1], F[0]]])
+                # storage layouts: the mode inside a combined envelope, in either tensor order
+                e0 = m.ref.env_of[F[0]]
+                acts.append(["env_combine", e0])
+                if m.ref.alive(e0 + ".p"):
+                    acts.append(["op", "state", [e0 + ".p"], "H", None])
             return acts
         W11 = [("W4/100", W4({"A.f": 1})), ("W4/110", W4({"A.f": 1, "B.f": 1})), ("W4/200", W4({"A.f": 2})),
                ("W4/210", W4({"A.f": 2, "B.f": 1})), ("W4/111", W4({"A.f": 1, "B.f": 1, "C.f": 1}))]
+        sup = W4({"A.f": 1, "A.f.dim": 3})
+        sup["prefix"] = [["op", "state", ["A.f"], "FCustom", {"tag": 1}]]
+        W11.insert(3, ("W4/superposition-of-0-1-2", sup))
         ks = range(0, 25, 2) if q else range(0, 25)
         phis_mzi = [k * PI / 12 for k in ks] + [seed_angle(seed)]
         for phi in phis_mzi:
@@ -553,7 +566,7 @@ def get(name, tier, seed):
                             ["op", "ce:h1", ["A.f", "B.f"], "BS", {"eta": PI / 4}]]
             wz["tags"] = {"mzi_phi": phi, "mzi_arm": "A.f"}
             W11.append((f"MZI/{phi:.4f}", wz, 0 if q else 1))
-        return {**base, "prop": "C11", "worlds": (W11[:3] + W11[5:]) if q else W11, "core": core11,
+        return {**base, "prop": "C11", "worlds": (W11[:2] + W11[3:4] + W11[6:]) if q else W11, "core": core11,
                 "probes": (lambda m, w, o: [["measure", "state", [f], True, False] for f in focks(m)]),
                 "depth": 2 if q else 3, "extra_judges": ["c11"]}
     if name == "C08":
@@ -622,6 +635,13 @@ def get(name, tier, seed):
                 acts.append(["measure", "env:" + e, [e + ".f"], True, False])
             for s_ in L:
                 acts.append(["measure", "state", [s_], False, True])
+            # a Fock space of another envelope passed to an envelope entry point (must be rejected in both twins)
+            for ea, eb in itertools.permutations(m.envs[:2], 2):
+                if m.ref.alive(ea + ".f") and m.ref.alive(eb + ".f"):
+                    acts.append(["op", "env:" + ea, [eb + ".f"], "FIdentity", None])
+                    acts.append(["op", "env:" + ea, [eb + ".f"], "PhaseShift", {"phi": 0.4}])
+                    acts.append(["kraus", "env:" + ea, [eb + ".f"], "loss", None])
+                    acts.append(["povm", "env:" + ea, [eb + ".f"], "proj", False, True])
             return rotate(acts, seed)
 
         def core18(m, w, o):
@@ -642,10 +662,11 @@ def get(name, tier, seed):
             acts.append(["expand", "state", [F[0]]]) if F else None
             acts.append(["set_contraction", not m.contraction])
             return acts
-        E_ = W4({})
-        E_["twin_init"] = {"A.f": 0, "B.f": 1, "C.f": 2, "A.p": "H", "B.p": "V", "C.p": "R"}
-        E2 = W4({"A.f": 1, "B.f": 1, "C.f": 1, "A.p": "R", "B.p": "R", "C.p": "R"})
-        E2["twin_init"] = {"A.f": 0, "B.f": 1, "C.f": 2, "A.p": "H", "B.p": "V", "C.p": "R"}
+        dims3 = {"A.f.dim": 3, "B.f.dim": 3, "C.f.dim": 3}
+        E_ = W4(dict(dims3))
+        E_["twin_init"] = {"A.f": 0, "B.f": 1, "C.f": 2, "A.p": "H", "B.p": "V", "C.p": "R", **dims3}
+        E2 = W4({"A.f": 1, "B.f": 1, "C.f": 1, "A.p": "R", "B.p": "R", "C.p": "R", **dims3})
+        E2["twin_init"] = {"A.f": 0, "B.f": 1, "C.f": 2, "A.p": "H", "B.p": "V", "C.p": "R", **dims3}
         return {**base, "prop": "C18", "worlds": [("W4/all-equal-0H", E_), ("W4/all-equal-1R", E2)], "core": core18,
                 "probes": calls18, "depth": 1 if q else 2, "twin": "c18"}
     if name == "C17":
